@@ -6,7 +6,7 @@ EXTENDS Wire, TraceIO, Known_Wire
 
 VARIABLES l, subj, kf
 
-vars == <<stream, total, cur, off, view, vc, sent, l, subj, kf>>
+vars == <<stream, total, cur, off, view, vc, sent, wp, l, subj, kf>>
 
 TraceInit == WireInit /\ l = 1 /\ subj = [subject |-> "none"] /\ kf = {}
 
@@ -19,13 +19,20 @@ Step(e) ==
     \/ e.op = "read_val"      /\ ReadVal(e.v, e.at, Unordered(e))
     \/ e.op = "read_refused"  /\ ReadRefused
     \/ e.op = "encoded_len"   /\ EncodedLen(e.v, e.r)
+    \/ e.op = "fits_in"       /\ FitsIn(e.v, e.k, e.r)
+    \/ e.op = "ver_pred"      /\ VersionPred(e.kind, e.a, e.b, e.mx, e.r)
+    \/ e.op = "vlen"          /\ VLenIs(e.r)
+    \/ e.op = "at_end"        /\ AtEnd(e.r)
+    \/ e.op = "seekw"         /\ SeekW(e.whence, e.o, e.r)
+    \/ e.op = "sink_pos"      /\ SinkPos(e.r)
+    \/ e.op = "sink_remaining" /\ SinkRemaining(e.r, e.cap)
     \/ e.op = "total"         /\ Total(e.r)
     \/ e.op = "batch_eq"      /\ BatchEqualsScalar(e.batch, e.scalar)
     \/ e.op = "read_field"    /\ ReadField(e.v, e.present, e.consumed, e.at, e.wv, e.fv, e.rv, e.mx)
     \/ e.op = "open"          /\ Open(e.src, e.ranges)
     \/ e.op = "readn"         /\ ReadN(e.k, e.got)
     \/ e.op = "read_exact"    /\ ReadExact(e.k, e.got)
-    \/ e.op = "readn_refused" /\ ReadNRefused
+    \/ e.op = "readn_refused" /\ ReadNRefused(IF Has(e, "need") THEN e.need ELSE -1)
     \/ e.op = "peek"          /\ Peek(e.k, e.got)
     \/ e.op = "skip"          /\ Skip(e.k)
     \/ e.op = "seek"          /\ SeekTo(e.whence, e.o, e.r)
@@ -42,7 +49,7 @@ TraceNext ==
     /\ LET e == Rec[l] IN
        IF e.op = "reset"
        THEN /\ stream' = <<>> /\ total' = 0 /\ cur' = 1 /\ off' = 0
-            /\ view' = EmptyView /\ vc' = 0 /\ sent' = <<>>
+            /\ view' = EmptyView /\ vc' = 0 /\ sent' = <<>> /\ wp' = 0
             /\ subj' = e /\ kf' = kf
        ELSE /\ subj' = subj
             /\ IF UseKF /\ \E id \in KnownIds : DevApplies(id, e, subj)
